@@ -156,3 +156,21 @@ PROPS["C20"] = dict(
     assumptions=["a template without min_utxo never reads Compiler.latest_tx_body (reduce_op is the only reader; checked by clause 1 on every such target)"],
     check_names={101: "same payload, hash and fee (or same error variant) as on a fresh instance", 102: "a panic on the reused or the fresh instance"},
 )
+
+PROPS["C16"] = dict(
+    level="proof",
+    runner="C16",
+    model_files=["Base.v", "Assets.v", "Select.v", "Tir.v", "PlutusData.v", "Interop.v"],
+    proof_files=["PlutusData_proofs.v", "Interop_proofs.v"],
+    check_files=["C16_check.v"],
+    theorems=["C16_int_dec", "C16_int_number", "C16_int_hex16", "C16_int_out_of_range_rejected", "C16_bool",
+              "C16_bytes_hex", "C16_bytes_envelope_hex", "C16_bytes_envelope_base64", "C16_odd_hex_rejected",
+              "C16_request_declared_only"],
+    partial=["address (bech32/hex) and txid#index round trips, and the exact content of the assembled request map (args before env), are checked per case (clauses 101 of both legs), not yet theorems",
+             "'never panics' is a statement about serde_json / ciborium / the envelope decoders: observed on the malformed stream (clause 103)"],
+    trusted_base=TB_COMMON + ["base64 and bech32 decoding are oracle arguments: the crates' own answers on the strings at hand are fed to the model",
+                              "serde_json's parsing of numbers is environment: integers it holds as i64/u64 are JNum, everything else JFloat"],
+    assumptions=["JSON strings are modelled byte per ascii"],
+    check_names={101: "a valid encoding of v is coerced to exactly v / the returned map is the declared subset of args + env",
+                 102: "an ill-formed value (or corrupted envelope) is rejected with an error", 103: "panic"},
+)
